@@ -34,10 +34,14 @@ using namespace llbuild::basic;
 using namespace llbuild::buildsystem;
 
 CommandSignature ExternalCommand::getSignature() const {
+  // Each list is preceded by its length, so that moving an element across a
+  // list boundary changes the signature.
   CommandSignature code(getName());
+  code = code.combine(inputs.size());
   for (const auto* input: inputs) {
     code = code.combine(input->getName());
   }
+  code = code.combine(outputs.size());
   for (const auto* output: outputs) {
     code = code.combine(output->getName());
   }
